@@ -453,14 +453,19 @@ def atoi? (bs : Bytes) : Option Int :=
     latest, commit, index, rdb records; `checkpoint.BisyncKeyPrefix + ":"`) -/
 def bisyncNamespace : Bytes := Gen.bisyncKeyPrefix ++ [58]
 
-/-- `NewRedisOutput` of a link WITHOUT bisync (REPAIRED code): the bisync
-    namespace is a third reserved prefix. (`buildOutput` is the filter of a
-    bisync link, whose parser must still see marker commands to recognise
-    mirrored transactions and drops control commands itself.) Inserting the
-    three reserved prefixes and then the configured ones marks the same words
-    as `buildOutput` with the namespace put in front of the configured list. -/
-def buildOutputPlain (c : FilterCfg) : KeyFilter :=
-  buildOutput { c with prefBlack := bisyncNamespace :: c.prefBlack }
+/-- `ro.bisyncNsFilter` (REPAIRED code): a second filter whose only rule is the
+    bisync namespace as black prefix. The plain parser and `rdbReplay` apply it
+    next to `outFilter`; the bisync parser does not (it must see the markers to
+    recognise mirrored transactions and drops control commands itself). -/
+def nsFilter : KeyFilter := ({} : KeyFilter).insertPrefixKeyBlackList [bisyncNamespace]
+
+/-- parseAofCommand: `FilterCmdKey` of `outFilter`, then of `bisyncNsFilter` on
+    what is left -/
+def plainFilterCmdKey (f : KeyFilter) (cmd : Bytes) (args : List Bytes) : Option (List Bytes) :=
+  (f.filterCmdKey cmd args).bind (nsFilter.filterCmdKey cmd)
+
+/-- a key is withheld on a plain link when either filter rejects it -/
+def plainKeyRejected (f : KeyFilter) (k : Bytes) : Bool := f.keyRejected k || nsFilter.filterKey k
 
 /-- `syncer.isBisyncNamespaceKey` -/
 def isBisyncNamespaceKey (k : Bytes) : Bool :=
@@ -479,10 +484,11 @@ def configFix (cluster : Bool) (targetDb : Int) (resume : Bool) (c : FilterCfg) 
 
 /-! ### the snapshot path (RedisOutput.rdbReplay, bisyncRdbReplay) -/
 
-/-- a snapshot entry `(db, key)` is replayed exactly when `FilterDb(db)` is
-    false and neither `FilterKey(key)` nor `FilterSlot(key)` holds -/
+/-- `rdbReplay` (REPAIRED code): a snapshot entry `(db, key)` is replayed
+    exactly when `FilterDb(db)` is false and neither `FilterKey(key)` nor
+    `FilterSlot(key)` of `outFilter` nor `FilterKey(key)` of `bisyncNsFilter` holds -/
 def rdbKeep (f : KeyFilter) (db : Int) (key : Bytes) : Bool :=
-  !f.filterDb db && !(f.filterKey key || f.filterSlot key)
+  !f.filterDb db && !(f.filterKey key || f.filterSlot key || nsFilter.filterKey key)
 
 /-- `rdbReplayBisync` (REPAIRED code): additionally no key of the bisync
     control namespace is replayed -/
